@@ -305,6 +305,9 @@ func (g *rtGen) config() cfgT {
 			c[i].Routes[r.Intn(n)].Bad = true
 		}
 	}
+	if r.Pct(10) {
+		g.injectRepeatedDomain(c)
+	}
 	if r.Pct(6) { // default only
 		c = cfgT{{Name: "vh0", Domains: []string{r.PickS([]string{"*", "*:*"})}, Routes: c[0].Routes, Indexed: c[0].Indexed}}
 		for j := range c[0].Routes {
@@ -312,6 +315,118 @@ func (g *rtGen) config() cfgT {
 		}
 	}
 	return c
+}
+
+// injectRepeatedDomain: one domain occurs twice (the second time possibly in another case, or as the other spelling of
+// the default), at NON-adjacent positions of the configuration, with 1-3 distractors of the same kind, the same port
+// and the same length between the two occurrences (and sometimes the same name with another port, which is no
+// repetition).  Such a configuration has two domains that are equal after normalisation and must be rejected.
+func (g *rtGen) injectRepeatedDomain(c cfgT) {
+	r := g.r
+	port := r.PickS([]string{"", "", ":80", ":*", ":8080"})
+	var seq []string
+	switch r.Intn(10) {
+	case 0: // the default, spelled twice
+		seq = []string{r.PickS([]string{"*", "*:*"}), "*:80", "*.zz" + port, r.PickS([]string{"*", "*:*"})}
+	case 1, 2, 3: // exact domains
+		fam := []string{"aaa.com", "bbb.com", "ccc.com", "ddd.com"}
+		shuffleStrings(r, fam)
+		seq = append(seq, fam[0]+port)
+		for k, n := 1, 1+r.Intn(3); k <= n; k++ {
+			seq = append(seq, fam[k]+port)
+		}
+		seq = append(seq, caseVariant(r, fam[0])+port)
+	default: // wildcard domains: the distractors have the same suffix length
+		fam := []string{"*.aaa.com", "*.bbb.com", "*.ccc.com", "*.ddd.com"}
+		if r.Bool() {
+			fam = []string{"*aa.org", "*.b.org", "*cc.org", "*.d.org"}
+		}
+		shuffleStrings(r, fam)
+		seq = append(seq, fam[0]+port)
+		for k, n := 1, 1+r.Intn(3); k <= n; k++ {
+			seq = append(seq, fam[k]+port)
+		}
+		seq = append(seq, caseVariant(r, fam[0])+port)
+	}
+	if r.Pct(40) { // same name, other port: not a repetition
+		other := ":81"
+		if port == "" {
+			other = ":80"
+		}
+		seq = append(seq[:1], append([]string{strings.TrimSuffix(seq[0], port) + other}, seq[1:]...)...)
+	}
+	// spread over the virtual hosts in order (several may land in one virtual host)
+	i := r.Intn(len(c))
+	for _, d := range seq {
+		c[i].Domains = append(c[i].Domains, d)
+		if i < len(c)-1 {
+			i += r.Intn(len(c) - i)
+		}
+	}
+}
+
+func shuffleStrings(r *Rng, xs []string) {
+	for i := len(xs) - 1; i > 0; i-- {
+		j := r.Intn(i + 1)
+		xs[i], xs[j] = xs[j], xs[i]
+	}
+}
+
+func caseVariant(r *Rng, s string) string {
+	switch r.Intn(3) {
+	case 0:
+		return s
+	case 1:
+		return upper(s)
+	}
+	b := []byte(s)
+	for i := range b {
+		if i%2 == 0 && b[i] >= 'a' && b[i] <= 'z' {
+			b[i] -= 32
+		}
+	}
+	return string(b)
+}
+
+// normalDomain: what a domain is after normalisation - kind (default / exact / wildcard), lower-cased host or suffix, port.
+// ok=false: not a domain NewRouters can accept
+func normalDomain(d string) (key string, ok bool) {
+	h, p, ok := hostPort(asciiLower(d))
+	if !ok || (h == "" && p == "") {
+		return "", false
+	}
+	switch {
+	case h == "*" && (p == "" || p == "*"):
+		return "default", true
+	case !strings.Contains(h, "*"):
+		return "exact|" + h + "|" + p, true
+	case strings.HasPrefix(h, "*"):
+		return "wild|" + h[1:] + "|" + p, true
+	}
+	return "", false
+}
+
+// repeatedDomain: two domains of the configuration that are equal after normalisation ("" if none); allValid says
+// whether every domain is acceptable on its own
+func (c cfgT) repeatedDomain() (first, second string, allValid bool) {
+	seen := map[string]string{}
+	allValid = true
+	for _, vh := range c {
+		for _, d := range vh.Domains {
+			k, ok := normalDomain(d)
+			if !ok {
+				allValid = false
+				continue
+			}
+			if prev, dup := seen[k]; dup && first == "" {
+				first, second = prev, d
+			}
+			if _, dup := seen[k]; !dup {
+				seen[k] = d
+			}
+		}
+	}
+	return
 }
 
 func (g *rtGen) request() reqT {
